@@ -638,9 +638,10 @@ func (f *Frame) applyContract(con *Contract, key string, sig *types.Signature, a
 			vc.assume(implies(f.curReach, t))
 		}
 	}
-	for _, e := range con.Assumes {
+	for i, e := range con.Assumes {
 		t := env2.evalBool(e.E)
 		vc.assume(implies(f.curReach, t))
+		vc.used["ASSUMED-CLAUSE:"+con.Key+"["+clauseName(e, i)+"] "+e.Src] = true
 	}
 	for _, e := range con.ObjInv {
 		var soft []string
